@@ -156,7 +156,8 @@ class Clock:
 class Kernel:
     FIRST_PID = 5000
 
-    def __init__(self, sched=None, adversarial=False, clock=None, passthrough=("tar",)):
+    def __init__(self, sched=None, adversarial=False, clock=None, passthrough=("tar",), unrelated=0):
+        self.unrelated = unrelated
         self.sched = sched or Sched()
         self.adversarial = adversarial
         self.clock = clock
@@ -440,6 +441,11 @@ class Kernel:
             time.time = self.clock
         subprocess._active.clear()
         self.installed = True
+        for _ in range(self.unrelated):
+            # a child of the cond process that is not a task (e.g. inherited through exec)
+            pid = self.next_pid
+            self.next_pid += 1
+            self.procs[pid] = Proc(pid, ["unrelated"], {}, "/", {}, self.tick())
         return self
 
     def __exit__(self, *a):
